@@ -272,6 +272,7 @@ func (w *pktWorld) addEvm(hostC *pktChain, kind, name string) *pktEvm {
 	if err := tc.App.AggregateKeeper.RegisterERC20Trace(ctx, a, strings.ToLower(common.Address{}.String()), name, uint8(0)); err != nil {
 		w.t.Fatal(err)
 	}
+	hostC.kind[name] = kind
 	w.evms = append(w.evms, ev)
 	w.evmBy[hostC.name+"|"+name] = ev
 	w.commit(hostC)
@@ -285,6 +286,9 @@ func (w *pktWorld) evmAdvance(ev *pktEvm, by uint64) *pktEvmState {
 	tc := ev.host.tc
 	ctx := tc.GetContext()
 	height := clienttypes.NewHeight(0, ev.head)
+	if ev.host.kind[ev.name] == "tss" {
+		return st // toggled to a TSS client: the EVM chain goes on, but there is no light client to feed
+	}
 	cs, found := tc.App.XIBCKeeper.ClientKeeper.GetClientState(ctx, ev.name)
 	if !found {
 		w.t.Fatalf("evm client %s vanished", ev.name)
